@@ -291,6 +291,16 @@ func driveEncoder(c *driverCtx, prop string) error {
 	cases = append(cases, hcase{"null", 1 << 20, append(big, encOp{flush: true})})
 	cases = append(cases, hcase{"snappy", 8000, append(big, encOp{flush: true})})
 
+	// counts and payload lengths around the one- / two-byte varint boundary of the block framing (63, 64, 65)
+	for _, n := range []int{63, 64, 65} {
+		recs := make([]encOp, n)
+		for i := range recs {
+			recs[i] = encOp{p: payload(c.rng, 1)}
+		}
+		cases = append(cases, hcase{codecs3[n%3], 1 << 20, append(recs, encOp{flush: true})})
+		// one record whose encoding is exactly n bytes (n-1 payload bytes + one length byte), block size 0
+		cases = append(cases, hcase{"null", 0, []encOp{{p: payload(c.rng, n-1)}, {flush: true}}})
+	}
 	// histories of a record type whose encoding is zero bytes (count and buffered bytes diverge)
 	for _, b := range []int{0, 1, 3} {
 		for n := 1; n <= c.pick(3, 4); n++ {
@@ -324,7 +334,7 @@ func driveEncoder(c *driverCtx, prop string) error {
 			ks = append([]int{1}, ks[:limit-1]...)
 		}
 		for _, k := range ks {
-			for _, acc := range []int{0, 1, 1 << 30} {
+			for _, acc := range []int{0, 1, 1 << 30, -1} {
 				runEncoderHistory(c, prop, key+fmt.Sprintf("|k%d.a%d", k, min(acc, 2)), hc.codec, hc.block, hc.hist, k, acc, ref)
 			}
 		}
